@@ -447,9 +447,9 @@ def run(ctx):
     ctx.exhaustive = True
     ctx.extra["exhaustive_depth"] = depth
     ctx.extra["exhaustive_distinct_histories"] = len(traces)
-    for _ in range(ctx.pick(2500, 100000)):
+    for _ in range(ctx.pick(2500, 60000)):
         traces.append(run_history(*random_history(ctx.rng)))
-    behs = ctx.simulate("CoopSim", "CoopSim.cfg", num=ctx.pick(25, 1500), depth=31)
+    behs = ctx.simulate("CoopSim", "CoopSim.cfg", num=ctx.pick(25, 300), depth=31)
     drift = 0
     for b in behs:
         t = run_history(*from_behaviour(b), default="val")
